@@ -170,7 +170,7 @@ def step (s : St) (toks : List String) : Option (St × String) :=
         let kp' : Keeper := { kp with items := kp.items ++ [⟨c, depth, br, un, nm⟩] }
         pure ({ s with keepers := s.keepers.pop.push kp' }, "ok") : P _).run' r
   | "check" :: r =>
-    (do let ki ← pBool
+    (do let code ← pInt
         let xt ← tok; if xt != "X" then failure
         let xs ← pList pRat
         let ot ← tok; if ot != "O" then failure
@@ -180,7 +180,7 @@ def step (s : St) (toks : List String) : Option (St × String) :=
         if !(inFragment m s.opts xs) then
           pure (s, if m.ordered || s.opts.mode &&& 992 == 0 then "nonfinite" else "unordered")
         else
-          pure (s, outcomeStr s.opts (checkSolution m s.opts xs ov ki)) : P _).run' r
+          pure (s, outcomeStr s.opts (checkSolutionCode m s.opts xs ov code)) : P _).run' r
   | "recompute" :: r =>
     (do let xs ← pList pRat; pEnd
         let m := s.model
